@@ -377,4 +377,20 @@ impl Link {
     pub fn verif_data_len(&self) -> usize {
         self.data.len()
     }
+    /// Disassembly of the linked code and the DATA values, for comparison with the model compiler.
+    pub fn verif_code(&self) -> (Vec<String>, Vec<Val>) {
+        let mut ops = vec![];
+        let mut index = 0;
+        while let Some(op) = self.ops.get(index) {
+            ops.push(format!("{}", op));
+            index += 1;
+        }
+        let mut data = vec![];
+        let mut index = 0;
+        while let Some(val) = self.data.get(index) {
+            data.push(val.clone());
+            index += 1;
+        }
+        (ops, data)
+    }
 }
